@@ -4,11 +4,33 @@ from props import c06
 
 
 def knobs(r, i):
-    return {"ops": 30 + r.below(100), "multi": True, "cycle_density": i % 3, "threads": 1 + i % 2}
+    return {"ops": 30 + r.below(100), "multi": True, "cycle_density": i % 3, "threads": 1 + i % 2, "open_at_close": i % 2 == 1}
+
+
+D10_PUSHED = """0 spawn
+0 setReporter 0
+0 collectorStart
+0 localEnter 6c31
+0 lAddEvent 6531 none
+0 close
+0 collect x1
+0 root v1 7231 1 0 1
+0 child1 v2 7332 v1
+0 pushChild v1 x1
+0 pushChild v2 x1
+0 drop v2
+0 drop v1
+0 cycle
+0 stats""".split("\n")
+
+
+def extra(r):
+    # the open finding D10 seen from C17: one captured set pushed to two parents of the same trace
+    return [("kf/D10-pushed-twice-into-one-trace", D10_PUSHED, ["no_panic", "copies"])]
 
 
 def run(v, tier, seed, replay):
     seqcheck.run(v, tier, seed, replay, "C17", ["C17"], tree_oracles=["no_panic", "copies", "tree", "exactly_once", "attachments"], knobs=knobs,
-                 n_quick=(700, 100), n_thorough=(80000, 5000), known=c06.known,
+                 n_quick=(700, 100), n_thorough=(80000, 5000), known=c06.known, extra_cases=extra,
                  nontrivial=lambda lines, tr: any(l.split()[1] in ("pushChild", "toRecords") for l in lines),
                  assumptions=["absolute times of to_span_records and of delivered copies use different clock anchors; durations are compared with a 2 µs tolerance"])
